@@ -797,12 +797,26 @@ func init() {
 			{{Kind: "US", Names: []string{"https"}}, {Kind: "UC", Names: []string{"https"}, Cb: "host=good.example"}},
 			{{Kind: "UC", Names: []string{"https"}, Cb: "host=good.example"}, {Kind: "US", Names: []string{"https"}}, {Kind: "UC", Names: []string{"https"}, Cb: "never"}},
 		}
-		for _, h := range hist {
-			ops := append([]*bmx.Op{{Kind: "AE", Names: []string{"img", "a"}}, {Kind: "AA", Names: []string{"src", "href"}, Scope: "G"}}, h...)
+		// a scheme registration reflects its most recent setting: AllowURLSchemes(x) replaces whatever was
+		// registered for x, a custom policy registered afterwards is added to it — so a history equals the
+		// history that starts at the last plain registration of the scheme
+		normal := [][]*bmx.Op{
+			{{Kind: "US", Names: []string{"data"}}, {Kind: "DU"}},
+			{{Kind: "US", Names: []string{"data"}}, {Kind: "DU"}},
+			{{Kind: "DU"}},
+			{{Kind: "US", Names: []string{"data"}}},
+			{{Kind: "US", Names: []string{"https"}}, {Kind: "UC", Names: []string{"https"}, Cb: "host=good.example"}},
+			{{Kind: "US", Names: []string{"https"}}, {Kind: "UC", Names: []string{"https"}, Cb: "never"}},
+		}
+		for hi, h := range hist {
+			base := []*bmx.Op{{Kind: "AE", Names: []string{"img", "a"}}, {Kind: "AA", Names: []string{"src", "href"}, Scope: "G"}}
+			ops := append(append([]*bmx.Op{}, base...), h...)
 			pid, pol := c.policy(ops)
+			nid, npol := c.policy(append(append([]*bmx.Op{}, base...), normal[hi]...))
 			for _, d := range []string{"<img src=\"data:image/png;base64,iVBORw0KGgo=\">", "<img src=\"data:text/html;base64,PHNjcmlwdD4=\">", "<img src=\"data:,x\">",
 				"<a href=\"https://good.example/\">g</a>", "<a href=\"https://evil.example/\">e</a>"} {
 				c.san(pid, pol, []byte(d))
+				fmt.Fprintf(c.w, "perm %d %d %s %s %s\n", pid, nid, bmx.HexField([]byte(d)), safeSanitize(pol, []byte(d)), safeSanitize(npol, []byte(d)))
 			}
 		}
 	}
@@ -811,11 +825,19 @@ func init() {
 		permFam(c)
 		monoFam(c)
 		toggleFam(c)
+		independence(c)
+	}
+	concFam := families["conc"]
+	families["conc"] = func(c *ctx) {
+		concFam(c)
+		independence(c)
 	}
 
 	// directed material for individual properties
 	families["directed"] = func(c *ctx) {
 		switch c.prop {
+		case "C01":
+			directedC01(c)
 		case "C05":
 			directedC05(c)
 		case "C08", "C09":
